@@ -159,6 +159,9 @@ def parse_tla_set_of_notes(out):
     return sorted((k, sorted(v)) for k, v in uniq.items())
 
 
+MODULE_CONSTS = {"ApiTotalTrace": "  Full = TRUE\n"}
+
+
 def tlc_trace(trace_path, dev=(), module="NutsTrace", diag_line=0, timeout=900, heap="3g", sdir=None, extra_consts=""):
     """Validate one ndjson trace.  Returns dict(accepted, reached, total, notes, out)."""
     d = sdir or spec_dir()
@@ -166,7 +169,7 @@ def tlc_trace(trace_path, dev=(), module="NutsTrace", diag_line=0, timeout=900, 
     devs = "{" + ", ".join('"%s"' % x for x in sorted(dev)) + "}"
     with open(cfgp, "w") as f:
         f.write("SPECIFICATION TraceSpec\nCONSTRAINT HighWater\nPOSTCONDITION TraceAccepted\nCHECK_DEADLOCK FALSE\n"
-                "CONSTANTS\n  Dev = %s\n  TraceFile = \"%s\"\n  DiagLine = %d\n%s" % (devs, trace_path, diag_line, extra_consts))
+                "CONSTANTS\n  Dev = %s\n  TraceFile = \"%s\"\n  DiagLine = %d\n%s" % (devs, trace_path, diag_line, extra_consts + MODULE_CONSTS.get(module, "")))
     md = cfgp + ".md"
     t = time.time()
     p = java_tlc(["-workers", "1", "-metadir", md, "-config", cfgp, module + ".tla"], d, timeout, heap=heap)
@@ -322,10 +325,12 @@ def drive_and_validate(res, shards, dev, what, family_desc, rerun=True):
         summ = os.path.join(work, "s%d-%d.json" % (i, attempt))
         tmp = os.path.join(work, "d%d-%d" % (i, attempt))
         os.makedirs(tmp, exist_ok=True)
-        binary, args_, mydev = "drive", list(args), dev
-        while args_ and args_[0][0] in "@#":
+        binary, args_, mydev, module = "drive", list(args), dev, "NutsTrace"
+        while args_ and args_[0][0] in "@#%":
             if args_[0].startswith("@"):
                 binary = args_[0][1:]
+            elif args_[0].startswith("%"):   # "%mod=<trace module>"
+                module = args_[0][5:]
             else:   # "#dev=F-a,F-b": the deviations that apply to this kind of trace
                 mydev = [x for x in args_[0][5:].split(",") if x and x in dev]
             args_ = args_[1:]
@@ -335,11 +340,13 @@ def drive_and_validate(res, shards, dev, what, family_desc, rerun=True):
             s = json.load(f)
         # pass 1: the ideal specification (no deviation enabled).  Only if it
         # rejects: pass 2 with the recorded known findings enabled.
-        r = tlc_trace(out, dev=(), sdir=sdir)
+        r = tlc_trace(out, dev=(), sdir=sdir, module=module)
+        r["module"] = module
         r["ideal_accepted"] = r["accepted"]
         if not r["accepted"] and mydev:
             r1 = r
-            r = tlc_trace(out, dev=mydev, sdir=sdir)
+            r = tlc_trace(out, dev=mydev, sdir=sdir, module=module)
+            r["module"] = module
             r["ideal_accepted"] = False
             r["ideal_reached"] = r1["reached"]
         return {"i": i, "args": args, "trace": out, "summary": s, "tlc": r}
@@ -377,7 +384,8 @@ def drive_and_validate(res, shards, dev, what, family_desc, rerun=True):
                 raise Infra("rejection at line %d of %s did not reproduce on re-execution" % (bad, r["trace"]))
             bad2 = t2["reached"] + 1
             first, last = history_bounds(r2["trace"], bad2)
-            diag = tlc_trace(r2["trace"], dev=(), diag_line=min(bad2, r2["tlc"].get("ideal_reached", bad2 - 1) + 1), sdir=sdir)
+            first = max(first, bad2 - 400)
+            diag = tlc_trace(r2["trace"], dev=(), diag_line=min(bad2, r2["tlc"].get("ideal_reached", bad2 - 1) + 1), sdir=sdir, module=t2.get("module", "NutsTrace"))
             res.violation("%s: event at trace line %d is not a step of the specification" % (what, bad2), {
                 "driver_args": r["args"], "rejected_line": bad2,
                 "rejected_event": read_lines(r2["trace"], bad2, bad2),
@@ -388,7 +396,7 @@ def drive_and_validate(res, shards, dev, what, family_desc, rerun=True):
     return results
 
 
-def gen_transitions(cfg_name, overrides=None, timeout=900, heap="4g"):
+def gen_transitions(cfg_name, overrides=None, timeout=900, heap="4g", module="DsGen"):
     """Run the DsGen transition emitter with spec/gen/<cfg_name>; returns
     (path of scenario file, tlc result dict, number of transitions)."""
     with open(os.path.join(SPEC, "gen", cfg_name)) as f:
@@ -401,7 +409,7 @@ def gen_transitions(cfg_name, overrides=None, timeout=900, heap="4g"):
         f.write(cfg)
     md = os.path.join(d, "md-gen")
     t = time.time()
-    p = java_tlc(["-workers", "1", "-metadir", md, "-config", cfgp, "DsGen.tla"], d, timeout, heap=heap)
+    p = java_tlc(["-workers", "1", "-metadir", md, "-config", cfgp, module + ".tla"], d, timeout, heap=heap)
     out = p.stdout + p.stderr
     shutil.rmtree(md, ignore_errors=True)
     st = parse_states(out)
